@@ -130,6 +130,8 @@ cdef class Exporter:
 '''
     for name, (ctype, _, _) in M.DTYPES.items():
         s += 'def a_%s(obj):\n    cdef %s[:] v = obj\n    return [v[i] for i in range(v.shape[0])]\n\n' % (name, ctype)
+    for name, (ctype, _, _) in M.DTYPES.items():
+        s += 'def a2_%s(obj):\n    cdef %s[:, :] v = obj\n    return [v[i, j] for i in range(v.shape[0]) for j in range(v.shape[1])]\n\n' % (name, ctype)
     for name in LEGACY_DT:
         ctype = M.DTYPES[name][0]
         s += 'def leg_%s(object[%s, ndim=1] b):\n    return [b[i] for i in range(3)]\n\n' % (name, ctype)
@@ -420,6 +422,110 @@ def _single_eval(case):
     return _fmt_eval(mod, fam, prefix, seq, style, lay, text, d, path)
 
 
+EMPTY_SHAPES = [(0,), (1,), (0, 2), (2, 0), (0, 0), (1, 1)]
+
+
+def real_exporters():
+    """(description, constructor expression) of real zero-/one-element exporters: array.array, bytearray, NumPy."""
+    out = []
+    for tc in 'bBhHiIlLqQfd':
+        for n in (0, 1):
+            out.append(('array.array(%r) len %d' % (tc, n), "__import__('array').array(%r, [0] * %d)" % (tc, n)))
+    for n in (0, 1):
+        out.append(('bytearray len %d' % n, 'bytearray(%d)' % n))
+    for dt in ('int8', 'uint8', 'int16', 'uint16', 'int32', 'uint32', 'int64', 'uint64', 'float32', 'float64', 'longdouble',
+               'complex64', 'complex128', 'bool', 'float16'):
+        for shape in EMPTY_SHAPES:
+            out.append(('numpy %s %r' % (dt, shape), "__import__('numpy').zeros(%r, dtype=%r)" % (shape, dt)))
+    return out
+
+
+def _empty_work(case):
+    """Zero-length (and one-element) buffers: the format must be checked even when there is no element.
+    Complete product: every declared dtype x every single-item format (7 prefixes x 24 codes) x shapes
+    {(0,), (1,), (0,2), (2,0), (0,0), (1,1)} through the Exporter, plus every real zero/one-element exporter."""
+    so, tier, part, nparts = case
+    mod = _load(so)
+    evals = 0
+    outcomes = set()
+    mism = []
+    more = 0
+    q = -1
+    for prefix in PREFIXES:
+        for code in CODES_FULL:
+            q += 1
+            if q % nparts != part:
+                continue
+            seq = ((code, ''),)
+            lay, text, cs = _fmt_prepare(prefix, seq, 0)
+            for d in ALL_DT:
+                dsize = M.DTYPES[d][2]
+                itemsize = lay['size'] if lay['size'] else dsize
+                expected = M.expect(lay, d, itemsize)
+                if expected is None:
+                    continue
+                for shape in EMPTY_SHAPES:
+                    nd = len(shape)
+                    n = 1
+                    for e in shape:
+                        n *= e
+                    strides = (itemsize,) if nd == 1 else (itemsize * max(1, shape[1]), itemsize)
+                    raw = raw_bytes(max(1, n) * max(itemsize, dsize))
+                    for path in ('mv',):
+                        ex = mod.Exporter(raw, text.encode(), itemsize, shape, strides)
+                        got = acquire(getattr(mod, ('a_' if nd == 1 else 'a2_') + d), ex)
+                        evals += 1
+                        outcomes.add(('empty', d, expected, got[1] if got[0] == 'reject' else 'ok', n == 0, nd))
+
+                        def decoder():
+                            return [M.decode(raw, k * itemsize, d) for k in range(n)]
+                        bad = judge(expected, got, ex, raw, 0, itemsize, 0, d, decoder)
+                        if bad:
+                            if len(mism) < 80:
+                                mism.append(dict(key='empty|%s|%s|mode:%s|%s|%s' % (bad, 'len0' if n == 0 else 'len1', M.mode_of(prefix), dt_class(d),
+                                                                                   'same-itemsize' if itemsize == dsize else 'other-itemsize'),
+                                                 what='%s%s <- Exporter(format %r, itemsize %d, shape %r): model says %s, got %s' % (
+                                                     M.DTYPES[d][0], '[:]' if nd == 1 else '[:, :]', text, itemsize, shape, expected, _short(got)),
+                                                 kind='empty', fmt=text, dtype=d, itemsize=itemsize, shape=list(shape), expected=expected))
+                            else:
+                                more += 1
+    if part == 0:
+        ns = {}
+        for desc, expr in real_exporters():
+            obj = eval(expr, ns)
+            mv = memoryview(obj)
+            fmt = mv.format
+            prefix = fmt[0] if fmt[0] in '@=<>!^' else ''
+            code = fmt[len(prefix):]
+            if code not in CODES_FULL:
+                continue
+            lay = M.layout(prefix, ((code, ''),))
+            nd, n = mv.ndim, (mv.nbytes // mv.itemsize if mv.itemsize else 0)
+            for d in ALL_DT:
+                expected = M.expect(lay, d, mv.itemsize)
+                if expected is None or nd not in (1, 2):
+                    continue
+                got = acquire(getattr(mod, ('a_' if nd == 1 else 'a2_') + d), eval(expr, ns))
+                evals += 1
+                outcomes.add(('real', d, expected, got[1] if got[0] == 'reject' else 'ok', n == 0, nd))
+                bad = None
+                if got[0] == 'reject':
+                    if got[1] not in OK_EXC:
+                        bad = 'exc-type:' + got[1]
+                    elif expected == 'accept':
+                        bad = 'false-reject'
+                elif expected == 'reject':
+                    bad = 'false-accept'
+                elif len(got[1]) != n:
+                    bad = 'values'
+                if bad:
+                    mism.append(dict(key='empty-real|%s|%s|%s|%s' % (bad, 'len0' if n == 0 else 'len1', dt_class(d), desc.split()[0]),
+                                     what='%s%s <- %s (format %r, itemsize %d): model says %s, got %s' % (
+                                         M.DTYPES[d][0], '[:]' if nd == 1 else '[:, :]', desc, fmt, mv.itemsize, expected, _short(got)),
+                                     kind='empty-real', expr=expr, dtype=d, expected=expected, nd=nd, n=n))
+    return dict(evals=evals, skipped=0, outcomes=list(outcomes), mism=mism, more=more, model_checks=0)
+
+
 def _special_work(case):
     """Malformed strings, zero counts, itemsize mismatches."""
     so, tier = case
@@ -583,7 +689,7 @@ def _geo_work(case):
 
 
 def _dispatch(case):
-    return {'fmt': _fmt_work, 'special': _special_work, 'geo': _geo_work}[case[0]](case[1])
+    return {'fmt': _fmt_work, 'special': _special_work, 'geo': _geo_work, 'empty': _empty_work}[case[0]](case[1])
 
 
 def _short(o):
@@ -614,6 +720,9 @@ def run(ctx):
     for p in range(8):
         if not only or 'geo' in only.split(','):
             cases.append(('geo', (r.so, tier, p, 8)))
+    for p in range(8):
+        if not only or 'empty' in only.split(','):
+            cases.append(('empty', (r.so, tier, p, 8)))
     if ctx.seed:
         import random
         random.Random(ctx.seed).shuffle(cases)
@@ -645,7 +754,7 @@ def run(ctx):
         'evaluations_by_family_kind': by_kind, 'distinct_accepting_outcomes': accepts,
         'skipped_ambiguous_layout': tot['skipped'], 'model_selfchecks_vs_struct_calcsize': tot['model_checks'],
         'mismatches_beyond_cap': tot['more'], 'crashed_work_units': tot['crashes'], 'reach': reach, 'reach_gaps': sorted(k for k, v in reach.items() if not v),
-        'dtypes': ALL_DT, 'families': [f for f, _ in families(tier)] + ['malformed', 'itemsize', 'geometry'],
+        'dtypes': ALL_DT, 'families': [f for f, _ in families(tier)] + ['malformed', 'itemsize', 'geometry', 'empty'],
         'modules_built': 1,
         'samples': [{'format': '@cT{ih}2xd', 'dtype': 'NS', 'model': 'accept'}, {'format': '=cid', 'dtype': 'AL', 'model': 'reject (offsets 0,1,5 vs 0,4,8)'},
                     {'format': '<l', 'dtype': 'int', 'model': 'accept (standard size 4)'},
@@ -732,11 +841,31 @@ def _replay_one(arg):
         dec = lambda: [M.decode(raw, base + sum(i * s for i, s in zip(ix, strides)), dname) for ix in itertools.product(*[range(n) for n in shape])]
         bad = judge(case['expected'], got, ex, raw, base, itemsize, 0, dname, dec)
         return '%s: %s' % (bad, _short(got)) if bad else False
+    if case['kind'] == 'empty':
+        d, itemsize, shape = case['dtype'], case['itemsize'], tuple(case['shape'])
+        nd = len(shape)
+        n = 1
+        for e in shape:
+            n *= e
+        raw = raw_bytes(max(1, n) * max(itemsize, M.DTYPES[d][2]))
+        strides = (itemsize,) if nd == 1 else (itemsize * max(1, shape[1]), itemsize)
+        ex = mod.Exporter(raw, case['fmt'].encode(), itemsize, shape, strides)
+        got = acquire(getattr(mod, ('a_' if nd == 1 else 'a2_') + d), ex)
+        bad = judge(case['expected'], got, ex, raw, 0, itemsize, 0, d, lambda: [M.decode(raw, k * itemsize, d) for k in range(n)])
+        return '%s: %s' % (bad, _short(got)) if bad else False
+    if case['kind'] == 'empty-real':
+        d = case['dtype']
+        got = acquire(getattr(mod, ('a_' if case['nd'] == 1 else 'a2_') + d), eval(case['expr'], {}))
+        if got[0] == 'reject':
+            bad = 'false-reject' if case['expected'] == 'accept' else (None if got[1] in OK_EXC else 'exc-type:' + got[1])
+        else:
+            bad = 'false-accept' if case['expected'] == 'reject' else None
+        return '%s: %s' % (bad, _short(got)) if bad else False
     return 'not replayable'
 
 
 def replay(ctx, case):
-    if case.get('kind') not in ('fmt', 'geo'):
+    if case.get('kind') not in ('fmt', 'geo', 'empty', 'empty-real'):
         return 'not replayable generically'
     r = farm.build('c17mod', case['source'], ctx.workdir('replay'), ext='.pyx')
     if not r.ok:
